@@ -20,7 +20,7 @@ void mmd_critic_markup_reject_range(DString * d, size_t start, size_t len);
 
 int main(void) {
 	char * line;
-	token_pool_init();
+	H_POOL_INIT();
 	while ((line = h_readline(stdin))) {
 		char * f[5];
 		int nf = h_split(line, ' ', f, 5);
